@@ -141,7 +141,7 @@ func (in *Interp) mustSettable(r RValue, op string) {
 	if r.addr == nil {
 		panic(in.reflectPanic("reflect.Value." + op + " using unaddressable value"))
 	}
-	if r.ro {
+	if r.ro || r.roE {
 		panic(in.reflectPanic("reflect.Value." + op + " using value obtained using unexported field"))
 	}
 }
@@ -435,13 +435,13 @@ func registerReflect(in *Interp) {
 			if p == nil {
 				return RValue{}
 			}
-			return RValue{t: r.t.Underlying().(*types.Pointer).Elem(), addr: p, ro: r.ro}
+			return RValue{t: r.t.Underlying().(*types.Pointer).Elem(), addr: p, ro: r.ro || r.roE}
 		case kInterface:
 			i := r.load().(Iface)
 			if i.t == nil {
 				return RValue{}
 			}
-			return RValue{t: i.t, v: i.v, ro: r.ro}
+			return RValue{t: i.t, v: i.v, ro: r.ro || r.roE}
 		}
 		panic(in.reflectPanic("call of reflect.Value.Elem on " + fmt.Sprint(r.t) + " Value"))
 	}
@@ -491,21 +491,21 @@ func registerReflect(in *Interp) {
 	I["(reflect.Value).CanAddr"] = func(in *Interp, fr *frame, a []Val) Val { return in.boolv(rv(a[0]).addr != nil) }
 	I["(reflect.Value).CanSet"] = func(in *Interp, fr *frame, a []Val) Val {
 		r := rv(a[0])
-		return in.boolv(r.addr != nil && !r.ro)
+		return in.boolv(r.addr != nil && !r.ro && !r.roE)
 	}
 	I["(reflect.Value).CanInterface"] = func(in *Interp, fr *frame, a []Val) Val {
 		r := rv(a[0])
 		if r.t == nil {
 			panic(in.reflectPanic("call of reflect.Value.CanInterface on zero Value"))
 		}
-		return in.boolv(!r.ro)
+		return in.boolv(!r.ro && !r.roE)
 	}
 	I["(reflect.Value).Interface"] = func(in *Interp, fr *frame, a []Val) Val {
 		r := rv(a[0])
 		if r.t == nil {
 			panic(in.reflectPanic("call of reflect.Value.Interface on zero Value"))
 		}
-		if r.ro {
+		if r.ro || r.roE {
 			panic(in.reflectPanic("reflect.Value.Interface: cannot return value obtained from unexported field or method"))
 		}
 		if kindOf(r.t) == kInterface {
@@ -518,7 +518,7 @@ func registerReflect(in *Interp) {
 		if r.addr == nil {
 			panic(in.reflectPanic("reflect.Value.Addr of unaddressable value"))
 		}
-		return RValue{t: types.NewPointer(r.t), v: r.addr, ro: r.ro}
+		return RValue{t: types.NewPointer(r.t), v: r.addr, ro: r.ro || r.roE}
 	}
 	I["(reflect.Value).IsNil"] = func(in *Interp, fr *frame, a []Val) Val {
 		r := rv(a[0])
@@ -545,7 +545,7 @@ func registerReflect(in *Interp) {
 		if x.t == nil {
 			panic(in.reflectPanic("reflect.Set: value of type <invalid> is not assignable"))
 		}
-		if x.ro {
+		if x.ro || x.roE {
 			panic(in.reflectPanic("reflect.Set: value obtained using unexported field"))
 		}
 		if !types.AssignableTo(x.t, r.t) {
@@ -655,15 +655,15 @@ func registerReflect(in *Interp) {
 			if i < 0 || i >= len(x.a) {
 				panic(in.reflectPanic("slice index out of range"))
 			}
-			return RValue{t: r.t.Underlying().(*types.Slice).Elem(), addr: &x.a[i], ro: r.ro}
+			return RValue{t: r.t.Underlying().(*types.Slice).Elem(), addr: &x.a[i], ro: r.ro || r.roE}
 		case Array:
 			if i < 0 || i >= len(x) {
 				panic(in.reflectPanic("array index out of range"))
 			}
 			if r.addr != nil {
-				return RValue{t: r.t.Underlying().(*types.Array).Elem(), addr: &x[i], ro: r.ro}
+				return RValue{t: r.t.Underlying().(*types.Array).Elem(), addr: &x[i], ro: r.ro || r.roE}
 			}
-			return RValue{t: r.t.Underlying().(*types.Array).Elem(), v: x[i], ro: r.ro}
+			return RValue{t: r.t.Underlying().(*types.Array).Elem(), v: x[i], ro: r.ro || r.roE}
 		case Str:
 			if i < 0 || i >= len(x.s) {
 				panic(in.reflectPanic("string index out of range"))
@@ -681,12 +681,19 @@ func registerReflect(in *Interp) {
 			panic(in.reflectPanic("Field index out of range"))
 		}
 		f := st.Field(i)
-		ro := r.ro || !f.Exported()
+		ro, roE := r.ro, false
+		if !f.Exported() {
+			if f.Embedded() {
+				roE = true
+			} else {
+				ro = true
+			}
+		}
 		if r.addr != nil {
 			s := (*r.addr).(Struct)
-			return RValue{t: f.Type(), addr: &s[i], ro: ro}
+			return RValue{t: f.Type(), addr: &s[i], ro: ro, roE: roE}
 		}
-		return RValue{t: f.Type(), v: r.v.(Struct)[i], ro: ro}
+		return RValue{t: f.Type(), v: r.v.(Struct)[i], ro: ro, roE: roE}
 	}
 	I["(reflect.Value).NumField"] = func(in *Interp, fr *frame, a []Val) Val {
 		r := rv(a[0])
@@ -730,7 +737,7 @@ func registerReflect(in *Interp) {
 	I["(reflect.Value).SetMapIndex"] = func(in *Interp, fr *frame, a []Val) Val {
 		r := rv(a[0])
 		in.mustKind(r, "SetMapIndex", kMap)
-		if r.ro {
+		if r.ro || r.roE {
 			panic(in.reflectPanic("SetMapIndex using value obtained using unexported field"))
 		}
 		m := r.load().(*Map)
